@@ -96,6 +96,12 @@ CHECKS["C09"] = dict(
     note="Coq kernel+VM; tr_math.py; oracle trusted as specification (Python math/cmath, own Bessel quadrature); glibc libm/complex.h",
     design="DESIGN.md 3 C09")
 
+CHECKS["C11"] = dict(
+    technique="Coq proof: model of IntegralGenerator's variable scopes (per-rule scope + shared piecewise scope) with the cache test regenerated from the source; theorem: every rule reads its own varying values for all rule lists; correspondence of the model with the real generator's scope resolution; oracle with each integral's own rule; closed-form monomial integrals in exact rational arithmetic for every cell and degree 0..30",
+    text="Proved for all lists of rules and all status assignments: a node that varies under rule i is resolved to rule i's own definition (refuted by example for the pre-fix cache test). Correspondence: the real generator's resolution of every node equals the model's on all multi-rule kernels of the corpus. Sampled: sums of integrals with differing rules (degrees, vertex/GLL/custom schemes, quadrature elements, facets, subdomains) agree with the oracle integrating each with its own rule; forms without metadata are exact on affine cells; monomial functionals of degree q with dx(degree=q) equal the closed-form integral (7 cells, q=0..30, schemes default/GLL/Gauss-Jacobi/xiao_gimbutas). Exactness of basix' rules is not proved in Coq.",
+    note="Coq kernel+VM; tr_scope.py; oracle and exact rational closed forms trusted; forms sampled; known finding: two different one-point rules in one integral share piecewise values",
+    design="DESIGN.md 3 C11")
+
 ALL = [f"C{i:02d}" for i in range(1, 21)]
 
 NOT_YET = "check not built yet in this session (work in progress; see DESIGN.md section 6 for the order of construction)"
